@@ -7,10 +7,23 @@ import OpwVerif.Lemmas.SrcCollTie
 namespace Opw.TieColl
 open Opw
 variable {R : Type} [OpwNum R]
+set_option linter.unusedSectionVars false
 
 theorem taskCollides_is_source (sc : Scene R) (safety : Safety R) (i j : Nat) :
     SrcColl.taskCollidesSrc (safety.minDistance i j) (sc.intersects i j)
       (sc.aabbNear i j (safety.minDistance i j)) (sc.distance i j) = taskCollides sc safety i j :=
   taskCollidesSrc_eq sc safety i j
+
+/-- [G] the safety distance of a pair as the CURRENT text of `SafetyDistances::min_distance` looks it up (exact key, then
+reversed key, then the environment default for pairs with an environment object, else the robot default) is the model's
+`Safety.minDistance`: a swapped branch order or a changed index test breaks this equation -/
+theorem minDistance_is_source (safety : Safety R) (i j : Nat) :
+    SrcColl.minDistanceSrc safety i j = safety.minDistance i j := rfl
+
+/-- [G] ... and so the whole per-pair verdict of the model is the two translated functions composed -/
+theorem taskCollides_is_source' (sc : Scene R) (safety : Safety R) (i j : Nat) :
+    SrcColl.taskCollidesSrc (SrcColl.minDistanceSrc safety i j) (sc.intersects i j)
+      (sc.aabbNear i j (SrcColl.minDistanceSrc safety i j)) (sc.distance i j) = taskCollides sc safety i j := by
+  rw [minDistance_is_source]; exact taskCollidesSrc_eq sc safety i j
 
 end Opw.TieColl
